@@ -23,13 +23,14 @@ H(p) == 100 + HNum(p)
 Payloads == UNION {[1..n -> Sym] : n \in 0..MaxLen}
 Store(p) == <<0, Len(p), H(p)>> \o p          \* version 0, length, checksum, payload
 
+Reject == [ok |-> FALSE, p |-> <<>>]
 \* VersionedChecksummedBlobWriter::load
 Load(f) ==
-    IF Len(f) < 3 THEN "reject"
-    ELSE IF f[1] # 0 THEN "reject"
-    ELSE IF f[2] # Len(f) - 3 THEN "reject"
-    ELSE IF ~NoChecksum /\ f[3] # H(SubSeq(f, 4, Len(f))) THEN "reject"
-    ELSE SubSeq(f, 4, Len(f))
+    IF Len(f) < 3 THEN Reject
+    ELSE IF f[1] # 0 THEN Reject
+    ELSE IF f[2] # Len(f) - 3 THEN Reject
+    ELSE IF ~NoChecksum /\ f[3] # H(SubSeq(f, 4, Len(f))) THEN Reject
+    ELSE [ok |-> TRUE, p |-> SubSeq(f, 4, Len(f))]
 
 Region(f, i) == CASE i = 1 -> "version" [] i = 2 -> "length" [] i = 3 -> "checksum" [] OTHER -> "payload"
 \* every value a single cell can be changed to: other symbols, other lengths, checksums of other payloads, another version
@@ -41,6 +42,6 @@ Foreign == {<<>>, <<1>>, <<0, 0>>, <<5, 5, 5, 5>>}
 Corruptions(f) == (Flips(f) \cup Cuts(f) \cup Appends(f) \cup Foreign) \ {f}
 
 \* never different data
-Safe(p) == \A c \in Corruptions(Store(p)) : Load(c) \in {"reject"} \/ Load(c) = p
-RoundTrip(p) == Load(Store(p)) = p
+Safe(p) == \A c \in Corruptions(Store(p)) : ~Load(c).ok \/ Load(c).p = p
+RoundTrip(p) == Load(Store(p)).ok /\ Load(Store(p)).p = p
 =============================================================================
